@@ -60,8 +60,8 @@ def run(tier):
                       "confluence; every edge is replayed on the real patcher (fonts/patches synthesised byte-wise, "
                       "deterministic fault-injecting decoder) through apply_glyph_keyed_patches / "
                       "apply_table_keyed_patch and, for canonical orders, through PatchGroup with the caller's status "
-                      "map; every header field of every catalogue patch is overwritten with boundary values and the patches are truncated (error or font, never a panic). IFTCff.tla: one charstring of the corpus CFF font is replaced so that the charstring data totals 65533..70000 bytes (both sides of the 2->3 byte INDEX offset threshold) and the patched INDEX is judged. distinct_nontrivial = edges that change the font.")
-    ck.assumptions = ["the state-graph model covers glyf/loca and gvar (short offsets); CFF charstrings are covered by the threshold family of IFTCff.tla on the corpus CFF font, CFF2 is not",
+                      "map; every header field of every catalogue patch is overwritten with boundary values and the patches are truncated (error or font, never a panic). IFTCff.tla: one charstring of the corpus CFF font and of the corpus CFF2 font is replaced so that the charstring data totals 200..70000 bytes (both sides of the 1->2 and 2->3 byte INDEX offset thresholds) and the patched INDEX is judged; IFTSizesMC / IFTCff!TSizes: one glyph of a glyf table with short loca / a gvar table with short offsets is replaced so that the table totals 1000..140000 bytes, both sides of the 131070-byte reach of divided-by-two offsets (applies up to there; beyond it gvar widens, glyf is refused with the bookkeeping untouched or written long). distinct_nontrivial = edges that change the font.")
+    ck.assumptions = ["the state-graph model covers glyf/loca and gvar (short offsets); CFF and CFF2 charstrings are covered by the threshold family of IFTCff.tla on the corpus CFF / CFF2 fonts only",
                       "Dec(stream, dict) = dict ++ stream stands for the brotli decoder",
                       "per-glyph data compared modulo the one zero padding byte short offsets require"]
     cat = json.load(open(CAT))
